@@ -20,13 +20,13 @@ func init() {
 		ID: "C14", Level: "exploration",
 		Rule:        "fault-free seeded histories (overwrites, deletes, rollbacks, commits aborted by a conflict, overwrites inside a transaction before commit, Create, SetReader, several roots, direct and deferred worker-pool path) run against the reference model; then all transactions are ended, background deletions drained (barrier jobs through the real pool + the pool's own state), a collector pass run and drained again, and the storage roots walked: the multiset of regular files must equal, by count and content hash, the multiset {Get(k) : k in GetKeys()}. Second phase: more garbage is produced while the workers are held busy, the database is closed with those deletions pending, reopened, drained, collected, drained and walked again. evaluations = histories x phases walked; distinct_nontrivial = distinct (history, kinds of garbage it produced) where at least one kind of garbage was produced and physically reclaimed",
 		Assumptions: []string{"quiescence barrier (DESIGN 2.5)", "reference model refmodel"},
-		Roles:       map[string]Role{"main": {N: func(t string) int { return tierN(t, 64, 1000) }, Case: c14Case}},
+		Roles:       map[string]Role{"main": {N: func(t string) int { return tierN(t, 64, 4000) }, Case: c14Case}},
 	})
 	register(&Prop{
 		ID: "C17", Level: "exploration",
 		Rule:        "long sequential histories with 1-3 roots and a directory limit of 100 (and 0, 1, 99 to exercise the clamp to 100): several hundred live keys so that directories fill up and rotate, delete waves followed by collector passes and drains so that rotated-out directories regain room, reopens; after EVERY step the tree below the roots is walked: every regular file lies exactly at root/<uuid>/<file>, every entry directly below a root is a UUID-named directory, no directory holds more than max(limit,100) entries, every root offers a directory to write to (the candidates the directory repository returns); a directory that regained room must be among the candidates and, when there are at most two candidates, receive a file within 64 later writes. evaluations = steps after which the tree was checked; distinct_nontrivial = distinct (configuration, event) pairs among {rotation, re-activation of a directory, reuse of a re-activated directory, reopen scan}",
 		Assumptions: []string{"the harness puts nothing else below the roots"},
-		Roles:       map[string]Role{"main": {N: func(t string) int { return tierN(t, 8, 64) }, Case: c17Case}},
+		Roles:       map[string]Role{"main": {N: func(t string) int { return tierN(t, 8, 128) }, Case: c17Case}},
 	})
 }
 
